@@ -94,6 +94,7 @@ func main() {
 	srcCfg := flag.String("cfg", "", "debug: configuration variant for -src")
 	srcEntry := flag.String("entry", "VerifRunSrc", "debug: entry for -src")
 	maxPathsFlag := flag.Int("maxpaths", 0, "debug: cap the number of paths per job")
+	noEvidence := flag.Bool("noevidence", false, "do not rewrite evidence/<id>.json (development only: seed trials)")
 	cpuprof := flag.String("cpuprofile", "", "write cpu profile")
 	flag.Parse()
 	if *cpuprof != "" {
@@ -478,7 +479,9 @@ func main() {
 	}
 	os.MkdirAll("/verif/evidence", 0o755)
 	b, _ := json.MarshalIndent(ev, "", " ")
-	os.WriteFile(filepath.Join("/verif/evidence", prop.ID+".json"), b, 0o644)
+	if !*noEvidence && os.Getenv("VERIF_REPO") == "" {
+		os.WriteFile(filepath.Join("/verif/evidence", prop.ID+".json"), b, 0o644)
+	}
 	fmt.Printf("%s %s: paths=%d queries=%d unsat=%d classes=%d violations=%d wall=%.1fs exit=%d\n", prop.ID, *tier, totalPaths, totalQueries, totalUnsat, len(reports), violations, time.Since(t0).Seconds(), exit)
 	nat.Close()
 	pprof.StopCPUProfile()
